@@ -843,6 +843,9 @@ func (r *resolver) refine(target Definition, y *Refine) error {
 	if y.configPtr != nil {
 		r.builder.Config(target, *y.configPtr)
 	}
+	if y.presence != "" {
+		r.builder.Presence(target, y.presence)
+	}
 	if y.mandatoryPtr != nil {
 		r.builder.Mandatory(target, *y.mandatoryPtr)
 	}
